@@ -1650,6 +1650,23 @@ def rule_position_token(prog):
                             kinds.add(last(co))
                         elif y["res"].get("k") == "Local" and "TokenType" in c.tstr(y["t"]) and "Token>" not in c.tstr(y["t"]):
                             other = True     # compared with a kind handed in from outside: unknown
+            if other and not kinds:
+                # the kind is handed to a local closure (`let find = |tt| tokens.iter().find(|t| t.token_type == tt)`): the kinds it is
+                # called with decide
+                for cl_, cps_ in hir.walk(b["body"]):
+                    if cl_.get("k") != "Closure" or not any(z_ is mc for z_ in hir.nodes(cl_["body"])):
+                        continue
+                    par_ = cps_[-1] if cps_ else {}
+                    if par_.get("k") != "Let" or par_["pat"].get("k") != "Binding" or len(cl_.get("params") or []) != 1:
+                        continue
+                    fid_ = par_["pat"]["id"]
+                    called = set()
+                    for call_ in hir.nodes(b["body"], "Call"):
+                        if (hir.path_local(hir.strip(call_["f"])) or {}).get("id") == fid_ and call_["args"]:
+                            co = (hir.path_def(hir.strip(call_["args"][0])) or {}).get("ctor_of", "")
+                            called.add(last(co) if co.startswith("spl_frontend::tokens::TokenType::") else "?")
+                    if called and "?" not in called and (called & CLOSERS):
+                        kinds, other = called & CLOSERS, False
             if kinds == {"Else"} and not other:
                 # if statements nest as well: the first `else` of an if statement's tokens may belong to an if inside its then-branch
                 out.add(b["d"], "the `else` of an if statement is not searched as the first `else` of its tokens", False, c.loc(mc["sp"]),
